@@ -585,3 +585,75 @@ def conf_ro(ctx, flavours, fams=BUILDERS, which=None):
         out.append(Obl('CONF', b['q'], b['span'], 'the %s does not modify the search configuration (only `method`%s)' % (kind, ', and `target` in a cycle entry' if cyc else ''), not why,
                        '; '.join(sorted(set(why))) if why else 'read-only'))
     return out
+
+
+# ---------------------------------------------------------------------------------------------------------------------
+# TR-PAIR: transpose() must run *the same algorithm* on the reversed edges.  The kernel an entry reaches under
+# Transposition::Inbound and the one it reaches under Outbound (all other arms equal) are compared by their discipline
+# signature: which of the role sites (next, callback, visited test, mark, record, advance, descent, target test) dominates
+# which, plus frontier discipline and emission position.  Orientation itself (iter_out/ITEM vs iter_in/REV) is TR0/TR1's.
+def _discipline(K):
+    """idiom-invariant facts about the order of the role sites (a dict name -> value)"""
+    if K.missing:
+        return {'roles': 'missing'}
+    S, cfg = K.sites, K.cfg
+
+    def ed(edge, site):
+        return edge is not None and site in S and cfg.edge_dominates(edge[0], edge[1], S[site])
+
+    def dom(a, c):
+        return a in S and c in S and S[a] != S[c] and cfg.dominates(S[a], S[c])
+    d = {
+        'family': K.family,
+        'callback before the visited test': ed(K.exec_true, 'CONTAINS'),
+        'visited test before the callback': ed(K.notvis, 'EXEC'),
+        'mark only when unvisited': K.insert_is_test or ed(K.notvis, 'INSERT'),
+        'mark only when accepted': ed(K.exec_true, 'INSERT'),
+        'advance only when unvisited': ed(K.notvis, 'ADVANCE'),
+        'advance only when accepted': ed(K.exec_true, 'ADVANCE'),
+        'mark before advance': dom('INSERT', 'ADVANCE') or (K.insert_is_test and ed(K.notvis, 'ADVANCE')),
+        'take': K.take_m, 'add': K.add_m, 'frontier': K.front_adt.split('::')[-1], 'reverse heap': K.front_reverse,
+        'records': bool(K.result), 'has target test': K.teq_true is not None,
+        'result kinds': tuple(sorted({k for _, k, _ in K.rets} - {'propagate'})),
+    }
+    if K.result:
+        d['record only when unvisited'] = ed(K.notvis, 'RECORD')
+        d['record only when accepted'] = ed(K.exec_true, 'RECORD')
+        d['record before advance'] = dom('RECORD', 'ADVANCE')
+        d['advance before record'] = dom('ADVANCE', 'RECORD')
+        if K.recurse:
+            d['record before descent'] = dom('RECORD', 'RECURSE')
+            d['descent before record'] = dom('RECURSE', 'RECORD')
+    if K.teq_true is not None and K.teq_site is not None:
+        d['target test only when unvisited'] = K.notvis is not None and cfg.edge_dominates(K.notvis[0], K.notvis[1], K.teq_site)
+        d['advance skipped for the target'] = 'ADVANCE' in S and not cfg.edge_dominates(K.teq_true[0], K.teq_true[1], S['ADVANCE']) and not cfg.path_exists(K.teq_true[1], S['ADVANCE'], avoiding={S['NEXT']})
+    return d
+
+
+def tr_pair(ctx, flavours, fams=BUILDERS, which=None):
+    F = ctx.F
+    out = []
+    seen = set()
+    for b, sites in entries(ctx, flavours, fams, which):
+        groups = {}
+        for bi, t, K in sites:
+            labs = arm_context(F, b, bi)
+            tl = [l for l in labs if l.startswith('Transposition::')]
+            if len(tl) != 1:
+                continue
+            rest = tuple(sorted(l for l in labs if not l.startswith('Transposition::')))
+            groups.setdefault(rest, {})[tl[0].split('::')[-1]] = K
+        for rest, g in sorted(groups.items()):
+            if 'Outbound' not in g or 'Inbound' not in g:
+                continue
+            Ko, Ki = g['Outbound'], g['Inbound']
+            if (Ko.q, Ki.q) in seen:
+                continue
+            seen.add((Ko.q, Ki.q))
+            so, si = _discipline(Ko), _discipline(Ki)
+            if so == si:
+                why = 'same discipline (%d facts)' % len(so)
+            else:
+                why = '; '.join('%s: forward %s / transposed %s' % (k, so.get(k), si.get(k)) for k in sorted(set(so) | set(si)) if so.get(k) != si.get(k))
+            out.append(Obl('TR-PAIR', Ki.q, F.where(Ki.b), 'transposed kernel %s follows the same discipline as %s (%s)' % (Ki.name, Ko.name, '+'.join(rest) or 'no other arm'), so == si, why))
+    return out
